@@ -206,3 +206,156 @@ Definition limits_grow (l1 l2 : limits) : Prop :=
   | None, None => True
   | None, Some _ => False
   end.
+
+(* ====================================================================================================================
+   Round 2 (deepening): the API through which limits are EXPRESSED, histories of several calls (legs) on one object,
+   the link between the two models above (observation-stream machine `drive` / abstract-state loop `run`).
+   ==================================================================================================================== *)
+
+(* ------------------------------------------------------------------ arguments of one call
+   performSpatiallyAdaptiv(..., tol=10**-2, max_evaluations=None, min_evaluations=1)
+   continue_adaptive_refinement(tol=10**-3, max_time=None, max_evaluations=None, min_evaluations=1)
+   None = the argument is not given (for max_evaluations: not given, or None given - the same thing in Python).
+   An explicitly given value is ALWAYS used as it is: tol=0 (refine until the point budget is used up) is a value,
+   not "not given"; no value of an earlier call survives into a later call. *)
+Record call_args := mkArgs { a_tol : option Qc; a_min : option Z; a_max : option Z }.
+
+(* the binary64 values of the Python literals 10 ** -2 and 10 ** -3 *)
+Definition default_tol_perform : Qc := Q2Qc (5764607523034235 # 576460752303423488).
+Definition default_tol_continue : Qc := Q2Qc (1152921504606847 # 1152921504606846976).
+
+Definition resolve (default_tol : Qc) (a : call_args) : limits :=
+  mkLimits (match a_tol a with Some t => t | None => default_tol end)
+           (match a_min a with Some m => m | None => 1 end)
+           (a_max a).
+Definition resolve_perform : call_args -> limits := resolve default_tol_perform.
+Definition resolve_continue : call_args -> limits := resolve default_tol_continue.
+
+(* a history on one object: performSpatiallyAdaptiv (first = true) followed by continue_adaptive_refinement calls *)
+Fixpoint resolve_history (first : bool) (h : list call_args) : list limits :=
+  match h with
+  | [] => []
+  | a :: r => (if first then resolve_perform a else resolve_continue a) :: resolve_history false r
+  end.
+
+(* every call of a history on ITS OWN observation stream: the state after each call and its stop flag *)
+Fixpoint api_run (first : bool) (calls : list (call_args * list obs)) (s : dstate) : list (dstate * bool) :=
+  match calls with
+  | [] => []
+  | (a, os) :: r =>
+      let res := drive (if first then resolve_perform a else resolve_continue a) os
+                       (if first then d_init else s) in     (* performSpatiallyAdaptiv empties the history arrays *)
+      res :: api_run false r (fst res)
+  end.
+
+(* ------------------------------------------------------------------ decidable `limits_grow` (verified checker) *)
+Definition limits_growb (l1 l2 : limits) : bool :=
+  Qc_leb (l_tol l2) (l_tol l1) && (l_min l1 <=? l_min l2) &&
+  match l_max l1, l_max l2 with
+  | Some m1, Some m2 => m1 <=? m2
+  | Some _, None => true
+  | None, None => true
+  | None, Some _ => false
+  end.
+
+Fixpoint all_growb (legs : list limits) (lf : limits) : bool :=
+  match legs with [] => true | l :: r => limits_growb l lf && all_growb r lf end.
+
+(* ------------------------------------------------------------------ several legs on ONE underlying observation stream
+   `os` is the stream an uninterrupted, never stopping run would see. A leg with limits l that starts where the previous
+   leg stopped re-evaluates first (the loop is re-entrant: it evaluates before it decides), i.e. it sees the stream from
+   the stop position on. Result: absolute stop position of the last leg and the driver state (history arrays, trace);
+   None = some leg runs out of the stream. *)
+Definition after_stop_m (s : dstate) (os : list obs) (k : nat) : dstate :=
+  mkD (d_errs s ++ map o_err (firstn (S k) os)) (d_surs s ++ map o_sur (firstn (S k) os))
+      (d_pts s ++ map o_pts (firstn (S k) os)) (d_trace s ++ eval_refine_rounds k ++ [EvEval])
+      (d_refines s + Z.of_nat k).
+
+Fixpoint legs_on_stream (legs : list limits) (os : list obs) (d : dstate) : option (nat * dstate) :=
+  match legs with
+  | [] => Some (O, d)
+  | l :: r =>
+      match first_stop l os with
+      | Some k =>
+          match legs_on_stream r (skipn k os) (after_stop_m d os k) with
+          | Some (p, d') => Some ((k + p)%nat, d')
+          | None => None
+          end
+      | None => None
+      end
+  end.
+
+(* ------------------------------------------------------------------ the loop over the abstract refinement state, with
+   the history recording of the real driver, and its observation trajectory *)
+Section Legs.
+  Variable St : Type.
+  Variable evaluate : St -> St.
+  Variable refine : St -> St.
+  Variable observe : St -> obs.
+
+  (* what the successive evaluations of a never stopping run show *)
+  Fixpoint traj (n : nat) (s : St) : list obs :=
+    match n with
+    | O => []
+    | S n' => let s1 := evaluate s in observe s1 :: traj n' (refine s1)
+    end.
+
+  (* the evaluated state after k refinement rounds *)
+  Fixpoint state_at (k : nat) (s : St) : St :=
+    match k with
+    | O => evaluate s
+    | S k' => state_at k' (refine (evaluate s))
+    end.
+
+  (* continue_adaptive_refinement: the loop of `run` together with the appends to the history arrays *)
+  Fixpoint run_rec (lim : limits) (fuel : nat) (s : St) (d : dstate) : option (St * dstate) :=
+    match fuel with
+    | O => None
+    | S f => let s1 := evaluate s in
+             let d1 := record_obs d (observe s1) in
+             if stop_now lim (observe s1) then Some (s1, d1) else run_rec lim f (refine s1) (do_refine d1)
+    end.
+
+  (* a history of calls on one object *)
+  Fixpoint run_legs (legs : list (limits * nat)) (s : St) (d : dstate) : option (St * dstate) :=
+    match legs with
+    | [] => Some (s, d)
+    | (l, n) :: r => match run_rec l n s d with Some (s', d') => run_legs r s' d' | None => None end
+    end.
+
+  Fixpoint legs_fuel (legs : list (limits * nat)) : nat :=
+    match legs with [] => O | (_, n) :: r => (n + legs_fuel r)%nat end.
+End Legs.
+
+(* ------------------------------------------------------------------ C14 up to an equivalence of states (floating point
+   rounding) and with reevaluate_at_end: after the loop has stopped, evaluate_final_combi recomputes the combination from
+   scratch (`finish`); the returned result is the one of the finished state, and the next call starts from it. *)
+Section Finish.
+  Variable St : Type.
+  Variable evaluate : St -> St.
+  Variable refine : St -> St.
+  Variable finish : St -> St.
+  Variable observe : St -> obs.
+
+  Definition run_fin (reeval : bool) (lim : limits) (fuel : nat) (s : St) : option St :=
+    match run St evaluate refine observe lim fuel s with
+    | Some x => Some (if reeval then finish x else x)
+    | None => None
+    end.
+End Finish.
+
+Definition limits_eqb (l1 l2 : limits) : bool :=
+  Qc_eqb (l_tol l1) (l_tol l2) && (l_min l1 =? l_min l2) &&
+  match l_max l1, l_max l2 with
+  | Some m1, Some m2 => m1 =? m2
+  | None, None => true
+  | _, _ => false
+  end.
+
+(* stop positions (absolute) and driver state after each prefix of the legs; None from the first leg on that runs out of
+   the stream *)
+Fixpoint legs_prefixes (n : nat) (legs : list limits) (os : list obs) : list (option (nat * dstate)) :=
+  match n with
+  | O => []
+  | S n' => legs_prefixes n' legs os ++ [legs_on_stream (firstn n legs) os d_init]
+  end.
